@@ -92,6 +92,9 @@ class Run(object):
         for ti, n, clauses in v.notes:
             for c in clauses:
                 self.notes[c] = self.notes.get(c, 0) + 1
+                ex = self.extra.setdefault("note_examples", {})
+                if c[:2] == "X:" and len(ex.setdefault(c, [])) < 2:
+                    ex[c].append({"recipe": recipes[ti] if recipes else None, "event_index": n})
         for ti, n, clauses in v.fails:
             for c in clauses:
                 p = c.split(":")[0]
